@@ -43,18 +43,26 @@ def frames(stack):
     return [f for f in stack.split(";") if f]
 
 
+def bare(frame):
+    """frame name without a glued return type (`unsignedlongPolyhedron::conversion<..>` -> `Polyhedron::conversion<..>`)"""
+    best = None
+    for h in HIGH:
+        i = frame.find(h)
+        if i >= 0 and (best is None or i < best) and re.fullmatch(r"[a-z_*&:<>0-9]*", frame[:i]) and "::" not in frame[:i].replace("std::", ""):
+            best = i
+    return frame[best:] if best else frame
+
+
 def interrupted_function(thrower):
-    """innermost library function of a high-level class on the stack of the failing allocation"""
-    fs = [f for f in frames(thrower) if not f.startswith("gmp:") and not f.startswith("operatornew") and not f.startswith("std::")
-          and not f.startswith("__gnu_cxx::") and not f.startswith("void std::")]
+    """innermost library function of a high-level class on the stack of the failing event"""
+    fs = [bare(f) for f in frames(thrower) if not f.startswith(("gmp:", "operatornew", "std::", "__gnu_cxx::", "voidstd::", "Counting_Throwable::",
+                                                                  "Timeout::", "Threshold_Watcher", "maybe_abandon"))]
     pick = None
-    for f in fs:
-        g = f[4:] if f.startswith("void") else f
+    for g in fs:
         if g.startswith(HIGH) and not g.startswith(LOW):
             pick = g; break
     if pick is None:
-        for f in fs:
-            g = f[4:] if f.startswith("void") else f
+        for g in fs:
             if g.startswith(HIGH):
                 pick = g; break
     return strip_tmpl(pick) if pick else (strip_tmpl(fs[0]) if fs else "?")
@@ -81,6 +89,62 @@ def leak_root(site):
     return "leak:" + "<".join(fs), "unclassified_leak"
 
 
+MPQ_MARKS = ("__gmpq_", "Interval", "Box<", "BD_Shape<", "Octagonal_Shape<", "DB_Row<", "DB_Matrix<", "OR_Matrix<", "Checked_Number<", "mpq",
+             "__gmp_expr", "ResultChecked::")
+
+
+def gmpxx_internal(leaked, thrower):
+    """At most two GMP blocks leaked, no operator-new block, and both the leaked blocks and the failing allocation belong to ONE
+    mpq_class object under construction / one operator<< of gmpxx: `mpq_class(const mpq_class&)`, `mpq_class(expr)` and
+    `operator<<(ostream&, mpz_t/mpq_t)` of libgmpxx are not exception safe themselves (design-notes: probe t2.cc)."""
+    sites = [x for x in leaked.split("|") if x.startswith("gmp:")]
+    if not sites:
+        return False
+    tf = frames(thrower)
+    for site in sites:
+        fs = frames(site[4:])
+        if len(fs) >= 2 and re.match(r"gmp:__gmp[zq]_get_str$", fs[0]) and fs[1].startswith("gmp:operator<<"):
+            continue                                           # the string of operator<<, lost when the stream throws
+        if not tf or not tf[0].startswith("gmp:"):
+            return False                                       # the failing allocation is not a GMP one
+        own = [f for f in fs if not f.startswith("gmp:")]
+        thr = [f for f in tf if not f.startswith("gmp:")]
+        if own != thr:
+            return False                                       # not the same chain of activations
+        if not any(m in f for f in fs + tf for m in MPQ_MARKS):
+            return False                                       # nothing rational in sight: mpz_class is atomic
+    return True
+
+
+SYMPTOM = {
+    "const_recv_not_OK_after_fault": "const_object_damaged_by_fault", "const_recv_changed_value_after_fault": "const_object_damaged_by_fault",
+    "const_arg_not_OK_after_call": "const_object_damaged_by_fault", "const_arg_changed_value": "const_object_damaged_by_fault",
+    "const_arg_check_threw": "const_object_damaged_by_fault", "redo_observation_differs": "const_object_damaged_by_fault",
+    "copy_of_recv_OK_after_fault": "const_object_damaged_by_fault",
+    "recv_not_OK_after_reuse": "object_claims_valid_but_is_unusable_after_fault", "copy_of_valid_recv_not_OK": "object_claims_valid_but_is_unusable_after_fault",
+    "redo_differs_from_reference": "other_objects_damaged_by_fault", "recv_OK_after_reassign": "other_objects_damaged_by_fault",
+    "reassigned_recv_differs": "other_objects_damaged_by_fault", "recv_OK_after_redo": "other_objects_damaged_by_fault",
+    "redo_after_reassign_differs": "other_objects_damaged_by_fault", "redo_ctor_differs": "other_objects_damaged_by_fault",
+    "recv_after_reassign": "other_objects_damaged_by_fault", "redo_load_fails": "other_objects_damaged_by_fault",
+}
+
+
+def symptom(check):
+    if check.startswith("exception_outside_armed_call_"):
+        return "other_objects_damaged_by_fault"
+    return SYMPTOM.get(check, check)
+
+
+def crash_symptom(stage):
+    if stage in ("post_destructors", "runner"):
+        return "crash_when_destroyed_after_fault"
+    if stage in ("armed_call",):
+        return "crash_inside_the_call"
+    if stage in ("setup",):
+        return "crash_in_setup_after_earlier_fault"
+    return "crash_or_hang_when_used_after_fault"
+
+
 class Finding:
     __slots__ = ("site", "tags", "what", "line")
 
@@ -98,16 +162,24 @@ def classify_fault(tok, line, thrower_of_crash=None):
         stage, sig = kv.get("stage", "?"), tok[-1]
         thr = thrower_of_crash or ""
         fn = interrupted_function(thr) if thr else "?"
+        if thr.startswith("gmp:__gmpz_mul;"):
+            return [Finding("gmp:mpz_mul", ["destination_released_before_new_limbs_are_allocated", "crash_" + stage, sig], "crash after a failing allocation inside mpz_mul", line)]
         if kv.get("k") == "-1":
             out.append(Finding("%s:%s" % (kind, name), ["crash_without_fault", sig], "crashes without any fault injected (%s in %s)" % (sig, stage), line))
         else:
-            out.append(Finding(fn, ["crash_%s_%s" % (stage, sig), "%s_fault" % kind, "crash_" + stage, sig, "domain_" + dom],
+            out.append(Finding(fn, [crash_symptom(stage), "crash_%s_%s" % (stage, sig), "%s_fault" % kind, "crash_" + stage, sig, "domain_" + dom],
                                "%s at %s after a fault inside %s" % (sig, stage, fn), line))
         return out
     thrower = kv.get("thrower", "")
     fn = interrupted_function(thrower) if thrower else "?"
+    if thrower.startswith("gmp:__gmpz_mul;"):
+        # GMP's mpz_mul releases the limbs of the destination BEFORE it allocates the larger block (mpz/mul.c): when that
+        # allocation throws, the destination points to released memory.  Not PPL code; one finding for every symptom.
+        fn = "gmp:mpz_mul"
     ln, lg = int(kv.get("leak_new", 0)), int(kv.get("leak_gmp", 0))
-    if ln + lg > 0:
+    if ln == 0 and 0 < lg <= 2 and gmpxx_internal(kv.get("leaked", ""), thrower):
+        out.append(Finding("gmpxx", ["leak_inside_gmpxx"], "", line))          # counted, not a violation (see run())
+    elif ln + lg > 0:
         roots = collections.OrderedDict()
         for site in kv.get("leaked", "").split("|"):
             if not site:
@@ -122,10 +194,14 @@ def classify_fault(tok, line, thrower_of_crash=None):
         for (site, pred), ex in roots.items():
             out.append(Finding(site, [pred, "%s_fault" % kind], "leak (%d operator-new blocks, %d GMP blocks) e.g. allocated at %s" % (ln, lg, ex[:160]), line))
     if int(kv.get("bad_free", 0)) + int(kv.get("bad_origin", 0)) > 0:
-        out.append(Finding(fn, ["double_free_or_unknown_block", "%s_fault" % kind], "free of a block that is not live after a fault inside " + fn, line))
+        out.append(Finding(fn, ["destination_released_before_new_limbs_are_allocated" if fn == "gmp:mpz_mul" else "double_free_or_unknown_block", "%s_fault" % kind],
+                           "free of a block that is not live after a fault inside " + fn, line))
     for t in tok:
         if t.startswith("!"):
-            out.append(Finding(fn, [t[1:], "%s_fault" % kind, "domain_" + dom], "%s after a fault inside %s" % (t[1:], fn), line))
+            if fn == "gmp:mpz_mul":
+                out.append(Finding(fn, ["destination_released_before_new_limbs_are_allocated", t[1:]], "damage after a failing allocation inside mpz_mul", line))
+                continue
+            out.append(Finding(fn, [symptom(t[1:]), t[1:], "%s_fault" % kind, "domain_" + dom], "%s after a fault inside %s" % (t[1:], fn), line))
     if kv.get("fired") == "1" and kv.get("result") == "completed" and not out:
         pass
     return out
@@ -204,7 +280,7 @@ def run(ctx):
     samples = []
 
     def report(f, kind, replay_extra):
-        key = (f.site, tuple(f.tags))
+        key = (f.site, f.tags[0]) if not f.site.startswith("reject:") else (f.site, tuple(f.tags))
         stats["findings_" + kind] += 1
         if key in viol:
             viol[key][0] += 1
@@ -311,6 +387,9 @@ def run(ctx):
 
     # ---- verdicts --------------------------------------------------------------------------------
     for key, (cnt, f, extra) in sorted(viol.items(), key=lambda kv: kv[0]):
+        if f.site == "gmpxx":
+            stats["leaks_inside_gmpxx_runs"] = cnt
+            continue
         rep = {"site": f.site, "tags": f.tags, "occurrences": cnt}
         rep.update(extra)
         ctx.violation("%s [%s] x%d: %s" % (f.site, f.tags[0], cnt, f.what), rep, found_input=True, record={"site": f.site, "tags": f.tags})
